@@ -15,12 +15,23 @@ Independently of the models:
      McfSpec.cut_check (a cut whose capacity is below what must cross it; proved sound: no feasible flow) are
      evaluated inside coqc on the IMPLEMENTATION's outputs; the per-arc split of pooled flows, the potentials and
      the cut are untrusted witnesses computed here.
+Round-2 hardening (HARDENING.md): every case also carries class L (label objects: None, falsy, ints >= 257, fresh tuples / strings /
+frozensets, mixed; every occurrence of a label is a fresh object), class I (tuples / lists / OrderedDict / defaultdict containers,
+integer-valued float costs and supplies) and class A (inputs compared before / after, every call repeated on the same objects; shared
+objects through call sequences with different options in both orders).  Extra families: M magnitudes (costs / capacities / supplies
+up to 10^18 obtained from small instances by potential shifts, scalings and capacity scalings whose optimum follows from the small
+instance's brute-force optimum), S structured large instances with answers known by construction (chains of 17..1025 nodes listed in
+orders adverse to Bellman-Ford, 257 / 2049 parallel arcs, planted 17x17 / 20x20 assignments, random 9..100-node networks judged by
+max-flow + negative-cycle test), O max_iter sweeps 0..pivots+2 and default-1 / default / default+1, H event-directed search over an
+instrumented reference port (harness/props/mincost_events.py) plus minimised witnesses per event in corpus/C09/h_*.json.
 """
+import copy
 import itertools
 import json
-from collections import deque
+from collections import OrderedDict, defaultdict, deque
 
 from harness.core import COQ, Ctx, VERIF, cbool, clist, cnat, copt, cz, guarded
+from harness.props import mincost_events as EV
 
 ID = "C09"
 ANCHORS = ["solvor/flow.py", "solvor/network_simplex.py"]
@@ -138,10 +149,113 @@ def _d(i, s, t, d):
 LABELSETS = [None, None, "abcdefghij", ["s", "t", "x", "y", "z", "w", "q", "r", "p"], [10, 7, 3, 99, 0, 5, 42, 8, 1]]
 
 
-def gen_mcf(rng, big=False):
-    """One min_cost_flow instance: {"graph": [[key, [[v, cap, c], ...]], ...] (dict order), source, sink, demand, tag}."""
-    n = rng.choice([2, 3, 3, 4, 4, 5, 5, 6, 6] + ([7, 8] if big else []))
-    max_arcs = 14 if big else 9
+# ---------------------------------------------------------------- class L: label objects, class I: container shapes
+def mk_label(spec):
+    """A FRESH Python object for a label spec: equal to, but (where the type allows) not identical with, the object made
+    for the same spec at another place of the same call (graph key, arc head, source, sink).  Raw labels pass through."""
+    if not isinstance(spec, list):
+        return spec
+    k = spec[0]
+    if k == "none":
+        return None
+    if k == "bool":
+        return bool(spec[1])
+    if k == "int":
+        return int(str(spec[1]))  # ints >= 257 are not cached: a new object each time
+    if k == "float":
+        return float(repr(float(spec[1])))
+    if k == "str":
+        return "".join(list(spec[1]))
+    if k == "bytes":
+        return bytes(list(spec[1].encode()))
+    if k == "tuple":
+        return tuple(mk_label(x) for x in spec[1])
+    if k == "fset":
+        return frozenset(mk_label(x) for x in spec[1])
+    raise ValueError(spec)
+
+
+FALSY = [["none"], ["bool", False], ["str", ""], ["tuple", []], ["bytes", ""], ["fset", []], ["float", 0.0], ["int", 0]]
+LABEL_FAMILIES = ["none", "none", "falsy", "falsy", "bigint", "tuple", "str", "fset", "float", "mixed", "mixed", "numstr"]
+
+
+def gen_label_specs(rng, n, family=None):
+    """n label specs, pairwise different under == (so e.g. never both 0 and False), from the pool of HARDENING.md class L."""
+    family = family or rng.choice(LABEL_FAMILIES)
+
+    def one(fam, k):
+        if fam == "bigint":
+            return ["int", rng.choice([257, 1000, 2 ** 31, 2 ** 63, 10 ** 18]) + k]
+        if fam == "tuple":
+            return ["tuple", rng.choice([[["str", "n"], ["int", k]], [["int", k]], [["int", 300 + k], ["tuple", [["int", k], ["none"]]]]])]
+        if fam == "str":
+            return ["str", rng.choice(["node-%d", "%d", "L%d", "a long label with spaces %d"]) % k]
+        if fam == "fset":
+            return ["fset", [["int", k], ["str", "x"]]]
+        if fam == "float":
+            return ["float", k + 0.5]
+        if fam == "numstr":  # "1" next to 1: different labels
+            return ["str", str(k)] if k % 2 else ["int", k]
+        return ["int", k + 1]
+
+    for _ in range(50):
+        if family == "none":
+            specs = [one(rng.choice(["int", "int", "str", "tuple"]), k) for k in range(n)]
+            specs[rng.randrange(n)] = ["none"]
+        elif family == "falsy":
+            pool = rng.sample(FALSY, len(FALSY))
+            specs = []
+            for k in range(n):
+                specs.append(pool[k] if k < len(pool) and rng.random() < 0.8 else ["int", k + 1])
+            rng.shuffle(specs)
+        elif family == "mixed":
+            fams = ["bigint", "tuple", "str", "fset", "float", "int", "numstr"]
+            specs = [one(rng.choice(fams), k) for k in range(n)]
+            if rng.random() < 0.5:
+                specs[rng.randrange(n)] = rng.choice(FALSY)
+        else:
+            specs = [one(family, k) for k in range(n)]
+        try:
+            if len({mk_label(x) for x in specs}) == n:
+                return family, specs
+        except TypeError:
+            pass
+    return "int", [["int", k + 300] for k in range(n)]
+
+
+MCF_SHAPES = [None, None, None, {"adj": "tuple"}, {"arc": "list"}, {"map": "defaultdict"}, {"map": "ordered", "adj": "tuple", "arc": "list"},
+              {"cost_float": True}, {"cost_float": True, "adj": "tuple"}]
+
+
+def materialise(inst):
+    """The Python objects handed to min_cost_flow: (graph, source, sink, {label object: raw id}).  Every occurrence of a
+    label is a freshly built object; containers / number formats follow inst["shape"]."""
+    labs = inst.get("labels")
+    lab = (lambda x: mk_label(labs[x])) if labs is not None else (lambda x: x)
+    sh = inst.get("shape") or {}
+    arc_t = list if sh.get("arc") == "list" else tuple
+    adj_t = tuple if sh.get("adj") == "tuple" else list
+    num = float if sh.get("cost_float") else (lambda c: c)
+    items = [(lab(k), adj_t(arc_t((lab(v), cap, num(c))) for v, cap, c in out)) for k, out in inst["graph"]]
+    if sh.get("map") == "defaultdict":
+        g = defaultdict(list)
+        g.update(items)
+    elif sh.get("map") == "ordered":
+        g = OrderedDict(items)
+    else:
+        g = dict(items)
+    back = {lab(inst["source"]): inst["source"], lab(inst["sink"]): inst["sink"]}
+    for k, out in inst["graph"]:
+        back[lab(k)] = k
+        for v, _, _ in out:
+            back[lab(v)] = v
+    return g, lab(inst["source"]), lab(inst["sink"]), back
+
+
+def gen_mcf_core(rng, big=False, n=None, max_arcs=None):
+    """Index form of a min_cost_flow instance: {"n", "arcs" [(u, v, cap, c)], "s", "t", "demand", "tag"}."""
+    n = n or rng.choice([2, 3, 3, 4, 4, 5, 5, 6, 6] + ([7, 8] if big else []))
+    max_arcs = max_arcs or (14 if big else 9)
     shape = rng.choice(SHAPES)
     mode = rng.choice(COSTMODES)
     s, t = (0, n - 1) if rng.random() < 0.6 else rng.sample(range(n), 2)
@@ -156,19 +270,47 @@ def gen_mcf(rng, big=False):
         demand = mf + (1 if rng.random() < 0.2 else 0)  # saturated cut / just infeasible
     elif r < 0.8 and mf > 0:
         demand = rng.randint(1, mf)
-    labels = rng.choice(LABELSETS)
-    lab = (lambda x: x) if labels is None else (lambda x: labels[x])
+    return {"n": n, "arcs": arcs, "s": s, "t": t, "demand": demand, "tag": f"{shape}/{mode}"}
+
+
+def assemble_mcf(rng, core, labels="legacy", shape=None, shuffle=None, isolated=0.5, extra=None):
+    """Adjacency-dict form (as ordered list of [key, [[head, cap, cost], ...]]) of a core instance.  labels: "legacy" = one of
+    LABELSETS (raw ints / strings), a list of label specs, or a family name for gen_label_specs."""
+    n, arcs = core["n"], core["arcs"]
     keys = []
     for a in arcs:
         if a[0] not in keys:
             keys.append(a[0])
     for x in range(n):  # nodes without outgoing arcs: sometimes a key with an empty list, sometimes absent
-        if x not in keys and rng.random() < 0.5:
+        if x not in keys and rng.random() < isolated:
             keys.append(x)
-    if rng.random() < 0.5:
+    if shuffle if shuffle is not None else rng.random() < 0.5:
         rng.shuffle(keys)
-    graph = [[lab(k), [[lab(v), cap, c] for (u, v, cap, c) in arcs if u == k]] for k in keys]
-    return {"graph": graph, "source": lab(s), "sink": lab(t), "demand": demand, "tag": f"{shape}/{mode}"}
+    inst = {"demand": core["demand"], "tag": core["tag"]}
+    if labels in ("legacy", "legacy0"):
+        ls = rng.choice(LABELSETS) if n <= 9 and labels == "legacy" else None
+        lab = (lambda x: x) if ls is None else (lambda x: ls[x])
+    else:
+        fam, specs = (None, labels) if isinstance(labels, list) else gen_label_specs(rng, n, labels)
+        inst["labels"] = specs
+        if fam:
+            inst["tag"] += "/L:" + fam
+        lab = lambda x: x  # noqa: E731  (graph holds indices into inst["labels"])
+    inst["graph"] = [[lab(k), [[lab(v), cap, c] for (u, v, cap, c) in arcs if u == k]] for k in keys]
+    inst["source"], inst["sink"] = lab(core["s"]), lab(core["t"])
+    if shape:
+        inst["shape"] = shape
+    if extra:
+        inst.update(extra)
+    return inst
+
+
+def gen_mcf(rng, big=False):
+    """One min_cost_flow instance: {"graph": [[key, [[v, cap, c], ...]], ...] (dict order), source, sink, demand, tag
+    [, labels (specs, class L), shape (containers / float costs, class I)]}."""
+    core = gen_mcf_core(rng, big)
+    labels = "legacy" if rng.random() < 0.6 else None  # None: a random family of gen_label_specs
+    return assemble_mcf(rng, core, labels=labels if labels else rng.choice(LABEL_FAMILIES), shape=rng.choice(MCF_SHAPES))
 
 
 def gen_ns(rng, big=False):
@@ -198,7 +340,11 @@ def gen_ns(rng, big=False):
         if smode == "unbalanced":
             sup[rng.randrange(n)] += rng.choice([-2, -1, 1, 2])
     max_iter = rng.choice([0, 1, 2, 3, 5]) if rng.random() < 0.12 else None
-    return {"n": n, "arcs": [list(a) for a in arcs], "supplies": sup, "max_iter": max_iter, "tag": f"{shape}/{mode}/{smode}"}
+    inst = {"n": n, "arcs": [list(a) for a in arcs], "supplies": sup, "max_iter": max_iter, "tag": f"{shape}/{mode}/{smode}"}
+    sh = rng.choice(NS_SHAPES)
+    if sh:
+        inst["shape"] = sh
+    return inst
 
 
 def gen_assign(rng, big=False):
@@ -207,14 +353,312 @@ def gen_assign(rng, big=False):
     if n == 0:
         return {"matrix": []}
     lo, hi = rng.choice([(0, 9), (0, 9), (0, 2), (-4, 9), (5, 5), (0, 30)])
-    return {"matrix": [[rng.randint(lo, hi) for _ in range(m)] for _ in range(n)]}
+    inst = {"matrix": [[rng.randint(lo, hi) for _ in range(m)] for _ in range(n)]}
+    sh = rng.choice(ASSIGN_SHAPES)
+    if sh:
+        inst["shape"] = sh
+    return inst
+
+
+# ---------------------------------------------------------------- class M: magnitudes (answers known by construction)
+MCF_K = [10 ** 9, 2 ** 31, 2 ** 44 + 1, 2 ** 53 - 1, 2 ** 53 + 1, 2 ** 60, 10 ** 18]
+NS_K = [10 ** 8, 10 ** 9, 2 ** 31, 2 ** 36 + 1, 10 ** 12]  # float potentials of network_simplex stay exact: big-M * 4 < 2^53
+
+
+def _small_core(rng):
+    """A core instance small enough for the brute-force oracle (its optimum anchors the by-construction answers)."""
+    while True:
+        core = gen_mcf_core(rng, False, n=rng.choice([3, 4, 4, 5]), max_arcs=7)
+        size = 1
+        for a in core["arcs"]:
+            size *= a[2] + 1
+        if size <= BRUTE_LIMIT and core["arcs"]:
+            return core
+
+
+def magnify(rng, n, arcs, supplies, K, mode):
+    """Transform a small instance into one with huge numbers whose optimum follows from the small one's (opt):
+      shift   : cost += K * (p[head] - p[tail])   (large costs of mixed sign that nearly cancel around every cycle; no negative
+                cycle is created)                  -> opt - K * sum_w p[w] * supply[w], same optimal flows
+      scale   : cost *= K                          -> K * opt
+      mixed   : cost = K * cost + tiny             (huge + tiny)  -> exact oracle only
+      caps    : cap *= K, supplies *= K            -> K * opt (a K-fold optimal flow is optimal: same potentials certify it)
+    Returns (arcs', supplies', fn(opt) or None)."""
+    p = [rng.randint(-3, 3) for _ in range(n)]
+    if mode == "shift":
+        return ([(u, v, c, w + K * (p[v] - p[u])) for u, v, c, w in arcs], list(supplies),
+                lambda opt: None if opt is None else opt - K * sum(p[i] * supplies[i] for i in range(n)))
+    if mode == "scale":
+        return [(u, v, c, w * K) for u, v, c, w in arcs], list(supplies), lambda opt: None if opt is None else opt * K
+    if mode == "mixed":
+        return [(u, v, c, w * K + rng.randint(0, 3)) for u, v, c, w in arcs], list(supplies), None
+    return [(u, v, c * K, w) for u, v, c, w in arcs], [b * K for b in supplies], lambda opt: None if opt is None else opt * K
+
+
+def gen_mcf_magnitude(rng):
+    core = _small_core(rng)
+    n, s, t, d = core["n"], core["s"], core["t"], core["demand"]
+    sup = [_d(i, s, t, d) for i in range(n)]
+    opt, _ = optimum_of(n, core["arcs"], sup)
+    K = rng.choice(MCF_K)
+    mode = rng.choice(["shift", "shift", "shift", "scale", "mixed", "caps"])
+    arcs2, sup2, fn = magnify(rng, n, core["arcs"], sup, K, mode)
+    core2 = {"n": n, "arcs": arcs2, "s": s, "t": t, "demand": sup2[s], "tag": f"magnitude/{mode}/{K}"}
+    extra = {}
+    if fn is not None:
+        extra = {"oracle": "expect", "expect_opt": fn(opt), "exact_ok": mode != "caps"}
+    if mode == "caps":
+        extra["no_model"] = True  # the model's fuel is `demand` in unary
+    return assemble_mcf(rng, core2, labels="legacy" if rng.random() < 0.7 else rng.choice(LABEL_FAMILIES), extra=extra)
+
+
+def gen_ns_magnitude(rng):
+    while True:
+        inst = gen_ns(rng)
+        size = 1
+        for a in inst["arcs"]:
+            size *= a[2] + 1
+        if inst["n"] >= 2 and inst["arcs"] and size <= BRUTE_LIMIT and inst["max_iter"] is None:
+            break
+    n, arcs, sup = inst["n"], [tuple(a) for a in inst["arcs"]], inst["supplies"]
+    opt, _ = optimum_of(n, arcs, sup)
+    mode = rng.choice(["shift", "shift", "shift", "scale", "mixed", "caps"])
+    K = rng.choice(NS_K if mode != "caps" else MCF_K)
+    arcs2, sup2, fn = magnify(rng, n, arcs, sup, K, mode)
+    out = {"n": n, "arcs": [list(a) for a in arcs2], "supplies": sup2, "max_iter": None, "tag": f"magnitude/{mode}/{K}"}
+    if fn is not None:
+        out.update({"oracle": "expect", "expect_opt": fn(opt) if sum(sup) == 0 else None, "exact_ok": mode != "caps"})
+    return out
+
+
+def gen_assign_magnitude(rng):
+    n = rng.choice([1, 2, 3, 3, 4])
+    m = n if rng.random() < 0.6 else rng.choice([1, 2, 3, 4])
+    K = rng.choice(MCF_K)
+    a = [rng.randint(-3, 3) * K for _ in range(n)]
+    b = [rng.randint(-3, 3) * K for _ in range(m)]
+    return {"matrix": [[a[i] + b[j] + rng.randint(0, 5) for j in range(m)] for i in range(n)], "tag": f"magnitude/{K}"}
+
+
+# ---------------------------------------------------------------- class S: structured large instances, answers by construction
+def _chain_order(N, order, rng):
+    idx = list(range(N - 1))
+    if order == "reverse":
+        idx.reverse()
+    elif order == "zigzag":  # positions alternate: e1 late, e2 early, e3 late, ...
+        idx = idx[1::2] + idx[0::2][::-1] if rng.random() < 0.5 else idx[0::2][::-1] + idx[1::2]
+    elif order == "shuffle":
+        rng.shuffle(idx)
+    return idx
+
+
+def large_mcf(rng, N, kind, order="reverse"):
+    """chain : s = 0 -> 1 -> ... -> N-1 = t, the only route (all capacities >= demand); arcs listed in the given order, one
+               adjacency key per arc tail in that order; answer demand * sum(costs).  `order` decides how many Bellman-Ford
+               sweeps the shortest path needs (reverse: one node per sweep).
+       chain2: the chain plus a direct arc s->t that is 1 more expensive than the whole chain, chain capacity 1, demand 2.
+       parallel: N parallel arcs s->t (capacity 1, distinct costs, shuffled); answer = sum of the `demand` smallest costs."""
+    if kind == "parallel":
+        costs = rng.sample(range(1, 5 * N), N)
+        d = rng.choice([1, 3, 5])
+        core = {"n": 2, "arcs": [(0, 1, 1, c) for c in costs], "s": 0, "t": 1, "demand": d, "tag": f"large/parallel/{N}"}
+        return assemble_mcf(rng, core, labels="legacy", shuffle=False,
+                            extra={"oracle": "expect", "expect_opt": sum(sorted(costs)[:d]), "no_model": N > 300})
+    costs = [rng.randint(-2, 9) for _ in range(N - 1)]
+    d = rng.choice([1, 2])
+    chain = [(i, i + 1, (1 if kind == "chain2" else d + rng.randint(0, 2)), costs[i]) for i in range(N - 1)]
+    arcs = [chain[i] for i in _chain_order(N, order, rng)]
+    expect = d * sum(costs)
+    if kind == "chain2":
+        d = 2
+        arcs.insert(rng.randrange(len(arcs) + 1), (0, N - 1, 1, sum(costs) + 1))
+        expect = 2 * sum(costs) + 1
+    core = {"n": N, "arcs": arcs, "s": 0, "t": N - 1, "demand": d, "tag": f"large/{kind}/{order}/{N}"}
+    return assemble_mcf(rng, core, labels="legacy" if N > 60 or rng.random() < 0.5 else rng.choice(["bigint", "tuple", "str"]),
+                        shuffle=False, isolated=0.0, extra={"oracle": "expect", "expect_opt": expect, "no_model": N > 70})
+
+
+def large_ns(rng, N, kind):
+    """chain: as above with supplies d at node 0, -d at node N-1.  random: N nodes, ~4N arcs, potential-difference costs, supplies
+    induced by a random flow; judged by max-flow feasibility + absence of a negative residual cycle."""
+    if kind == "chain":
+        costs = [rng.randint(-2, 9) for _ in range(N - 1)]
+        d = rng.choice([1, 3])
+        arcs = [(i, i + 1, d + rng.randint(0, 2), costs[i]) for i in range(N - 1)]
+        rng.shuffle(arcs)
+        sup = [0] * N
+        sup[0], sup[N - 1] = d, -d
+        return {"n": N, "arcs": [list(a) for a in arcs], "supplies": sup, "max_iter": None, "tag": f"large/chain/{N}",
+                "oracle": "expect", "expect_opt": d * sum(costs), "no_model": N > 40}
+    cost = _cost_fn(rng, N, "potential")
+    arcs = []
+    for _ in range(4 * N):
+        u, v = rng.randrange(N), rng.randrange(N)
+        if u != v:
+            arcs.append((u, v, rng.randint(0, 5), cost(u, v)))
+    sup = [0] * N
+    for u, v, c, _ in arcs:
+        x = rng.randint(0, c) if rng.random() < 0.5 else 0
+        sup[u] += x
+        sup[v] -= x
+    if rng.random() < 0.2:  # probably infeasible
+        a, b = rng.sample(range(N), 2)
+        sup[a] += 7
+        sup[b] -= 7
+    return {"n": N, "arcs": [list(a) for a in arcs], "supplies": sup, "max_iter": None, "tag": f"large/random/{N}", "oracle": "cert",
+            "no_model": N > 12}
+
+
+def large_assign(rng, n, m):
+    """Planted optimum: cost[i][j] = a[i] + b[j] + (0 on a hidden permutation, >= 1 elsewhere); square, so every perfect matching
+    pays sum(a) + sum(b) and the hidden permutation is the unique optimum."""
+    perm = rng.sample(range(n), n)
+    a = [rng.randint(-5, 5) for _ in range(n)]
+    b = [rng.randint(-5, 5) for _ in range(n)]
+    mat = [[a[i] + b[j] + (0 if perm[i] == j else rng.randint(1, 6)) for j in range(n)] for i in range(n)]
+    return {"matrix": mat, "tag": f"large/{n}", "expect_assignment": perm, "expect_opt": sum(a) + sum(b), "no_model": n > 6}
+
+
+# ---------------------------------------------------------------- class H: rare histories (events: harness/props/mincost_events.py)
+def gen_mcf_zigzag(rng):
+    """7-10 nodes, a Hamiltonian s-t path whose arcs are listed in an order adverse to Bellman-Ford (reverse / zig-zag / shuffled),
+    decoy arcs that are too expensive to shortcut it and a few cheap ones that may.  Core (index) form."""
+    n = rng.choice([6, 7, 7, 8, 8, 9, 10])
+    order = [0] + rng.sample(range(1, n - 1), n - 2) + [n - 1]
+    costs = [rng.randint(0, 2) for _ in range(n - 1)]
+    path = [(order[i], order[i + 1], rng.choice([1, 1, 2]), costs[i]) for i in range(n - 1)]
+    arcs = [path[i] for i in _chain_order(n, rng.choice(["reverse", "zigzag", "zigzag", "shuffle"]), rng)]
+    pos = {x: i for i, x in enumerate(order)}
+    for _ in range(rng.randint(0, 5)):
+        a, b = rng.sample(range(n), 2)
+        if pos[a] < pos[b]:  # forward shortcut: dearer than the stretch of path it skips (sometimes exactly as dear)
+            w = sum(costs[pos[a]:pos[b]]) + rng.choice([0, 1, 1, 3])
+        else:
+            w = rng.randint(0, 3)  # backward arc of non-negative cost: no negative cycle
+        arcs.insert(rng.randrange(len(arcs) + 1), (a, b, rng.choice([0, 1, 2]), w))
+    return {"n": n, "arcs": arcs, "s": 0, "t": n - 1, "demand": rng.choice([1, 1, 2, 3]), "tag": "zigzag"}
+
+
+def core_of_tuple(x, tag):
+    return {"n": x[0], "arcs": list(x[1]), "s": x[2], "t": x[3], "demand": x[4], "tag": tag}
+
+
+def event_cases(rng, budget, want):
+    """Event-directed search (mincost_events.search) seeded with zig-zag gadgets; returns (mcf instances, ns instances), each
+    tagged "event/<name>"."""
+    def new_m(r):
+        c = gen_mcf_zigzag(r) if r.random() < 0.3 else gen_mcf_core(r, True, n=r.choice([4, 5, 6, 7, 8, 9]), max_arcs=r.choice([8, 12, 16]))
+        return (c["n"], c["arcs"], c["s"], c["t"], c["demand"])
+
+    def new_n(r):
+        i = gen_ns(r, True)
+        return (i["n"], [tuple(a) for a in i["arcs"]], i["supplies"], DEFAULT_MAX_ITER if i["max_iter"] is None else i["max_iter"])
+
+    gm, gn = EV.search(rng, budget, new_m, new_n, want=want)
+    mcf, ns, seen = [], [], set()
+    for e, lst in gm.items():
+        for x in lst:
+            if id(x) not in seen:
+                seen.add(id(x))
+                mcf.append(assemble_mcf(rng, core_of_tuple(x, "event/" + e), labels="legacy0", shuffle=False, isolated=0.0))
+    for e, lst in gn.items():
+        for x in lst:
+            if id(x) not in seen:
+                seen.add(id(x))
+                ns.append({"n": x[0], "arcs": [list(a) for a in x[1]], "supplies": list(x[2]),
+                           "max_iter": None if x[3] == DEFAULT_MAX_ITER else x[3], "tag": "event/" + e})
+    return mcf, ns
+
+
+# ---------------------------------------------------------------- class A: shared inputs, call sequences
+def alias_sequences(ctx, mcf_insts, ns_insts, count):
+    """One input object handed to consecutive calls with different options, in both orders, with a call on another instance (and a
+    max_flow call on the same graph) in between: every answer must equal the answer of a fresh, isolated call."""
+    from solvor.flow import max_flow, min_cost_flow
+    from solvor.network_simplex import network_simplex
+
+    def fresh_mcf(inst, d):
+        g, s, t, _ = materialise(inst)
+        return repr(_pack(min_cost_flow(g, s, t, d)))
+
+    def mcf_seq(inst, other):
+        d1 = inst["demand"]
+        d2 = max(0, d1 + ctx.rng.choice([-1, 1, 2]))
+        want = {d: fresh_mcf(inst, d) for d in (d1, d2)}
+        for order in ((d1, d2, d1), (d2, d1, d2)):
+            g, s, t, _ = materialise(inst)
+            before = _snap_graph(g)
+            for k, d in enumerate(order):
+                got = repr(_pack(min_cost_flow(g, s, t, d)))
+                if got != want[d]:
+                    return f"call {k + 1} of the sequence demands {order} on one shared graph returned {got}, a fresh call returns {want[d]}"
+                if k == 0:
+                    og, os_, ot, _ = materialise(other)
+                    min_cost_flow(og, os_, ot, other["demand"])
+                    max_flow(g, s, t)
+            if _snap_graph(g) != before:
+                return "the shared graph was modified"
+        return None
+
+    def ns_seq(inst, other):
+        arcs, sup = ns_args(inst)
+        its = network_simplex(inst["n"], arcs, sup).iterations
+        opts = [None, max(0, its - 1), 1]
+        want = {}
+        for o in opts:
+            a, b = ns_args(inst)
+            want[o] = repr(_pack(network_simplex(inst["n"], a, b, **({} if o is None else {"max_iter": o}))))
+        for order in (opts, opts[::-1]):
+            before = copy.deepcopy((arcs, sup))
+            for k, o in enumerate(order):
+                got = repr(_pack(network_simplex(inst["n"], arcs, sup, **({} if o is None else {"max_iter": o}))))
+                if got != want[o]:
+                    return f"call {k + 1} of the sequence max_iter={order} on shared arcs/supplies returned {got}, a fresh call returns {want[o]}"
+                if k == 0:
+                    oa, ob = ns_args(other)
+                    network_simplex(other["n"], oa, ob)
+            if (arcs, sup) != before:
+                return "the shared arcs / supplies were modified"
+        return None
+
+    small_m = [i for i in mcf_insts if len(i["graph"]) <= 12 and i["demand"] < 10 ** 6][:4 * count]
+    small_n = [i for i in ns_insts if i["n"] <= 12 and i.get("max_iter") is None][:4 * count]
+    for pool, fn, kind in ((small_m, mcf_seq, "mcf"), (small_n, ns_seq, "ns")):
+        if len(pool) < 2:
+            continue
+        for _ in range(count):
+            inst, other = ctx.rng.sample(pool, 2)
+            r = guarded(fn, inst, other, timeout=10)
+            ctx.evaluations += 1
+            ctx.count("call_sequences", kind)
+            bad = r[1] if r[0] == "ok" else f"call sequence did not complete: {r}"
+            if bad:
+                ctx.violation(f"{'min_cost_flow' if kind == 'mcf' else 'network_simplex'} (call sequence): {bad}", {"kind": kind, **inst, "sequence": True})
+                break
+
+
+# ---------------------------------------------------------------- class O: max_iter sweeps
+def ns_sweep(rng, count):
+    """Instances needing several pivots, each run with max_iter = 0 .. pivots + 2 and around the default."""
+    out = []
+    tries = 0
+    while len(out) < count and tries < 400:
+        tries += 1
+        inst = gen_ns(rng)
+        if inst["n"] < 3 or len(inst["arcs"]) < 4:
+            continue
+        inst["max_iter"] = None
+        inst.pop("shape", None)
+        r = guarded(run_ns_impl, inst, timeout=5)
+        if r[0] != "ok" or not (5 <= r[1]["iterations"] <= 40):
+            continue
+        k = r[1]["iterations"]
+        for mi in list(range(0, k + 3)) + [DEFAULT_MAX_ITER - 1, DEFAULT_MAX_ITER, DEFAULT_MAX_ITER + 1]:
+            out.append(dict(inst, max_iter=mi, tag="sweep/" + inst["tag"]))
+    return out
 
 
 # ====================================================================================== implementation runs
-def build_graph(inst):
-    return {k: [tuple(a) for a in arcs] for k, arcs in inst["graph"]}
-
-
 def relabel(inst):
     """First-occurrence numbering of the node labels (source, sink, then the graph in iteration order) and the arc
     list in the order `for u in graph: for (v, cap, c) in graph[u]`.  n = len(nodes) of the implementation."""
@@ -245,28 +689,98 @@ def _int(x):
     return None
 
 
-def run_mcf_impl(inst):
-    from solvor.flow import min_cost_flow
-
-    res = min_cost_flow(build_graph(inst), inst["source"], inst["sink"], inst["demand"])
+def _pack(res):
     return {"status": res.status.name, "flows": [[k[0], k[1], f] for k, f in res.solution.items()] if isinstance(res.solution, dict) else res.solution,
             "objective": res.objective, "iterations": res.iterations}
+
+
+def _snap_graph(g):
+    return (type(g).__name__, [(k, type(v).__name__, [(type(a).__name__, tuple(a)) for a in v]) for k, v in g.items()])
+
+
+def run_mcf_impl(inst):
+    """min_cost_flow on freshly materialised objects.  Class A: the caller's graph must be left as it was, and a second call
+    on the very same objects must give the same answer ("side" names what went wrong)."""
+    from solvor.flow import min_cost_flow
+
+    g, s, t, back = materialise(inst)
+    before = _snap_graph(g)
+    out = _pack(min_cost_flow(g, s, t, inst["demand"]))
+    side = None
+    if _snap_graph(g) != before:
+        side = "the caller's graph was modified"
+    else:
+        out2 = _pack(min_cost_flow(g, s, t, inst["demand"]))
+        if repr(out2) != repr(out):
+            side = f"a second call on the same objects returned {out2}"
+    if isinstance(out["flows"], list):
+        out["flows"] = [[back[u], back[v], f] for u, v, f in out["flows"]]  # KeyError = flow on an unknown label
+    out["side"] = side
+    return out
+
+
+NS_SHAPES = [None, None, None, {"arcs": "tuple"}, {"arc": "list"}, {"sup": "tuple"}, {"cost_float": True}, {"sup_float": True},
+             {"arcs": "tuple", "arc": "list", "sup": "tuple", "cost_float": True, "sup_float": True}]
+
+
+def ns_args(inst):
+    sh = inst.get("shape") or {}
+    arc_t = list if sh.get("arc") == "list" else tuple
+    cf = float if sh.get("cost_float") else (lambda c: c)
+    arcs = [arc_t((a[0], a[1], a[2], cf(a[3]))) for a in inst["arcs"]]
+    if sh.get("arcs") == "tuple":
+        arcs = tuple(arcs)
+    sup = [float(x) for x in inst["supplies"]] if sh.get("sup_float") else list(inst["supplies"])
+    if sh.get("sup") == "tuple":
+        sup = tuple(sup)
+    return arcs, sup
 
 
 def run_ns_impl(inst):
     from solvor.network_simplex import network_simplex
 
     kw = {} if inst.get("max_iter") is None else {"max_iter": inst["max_iter"]}
-    res = network_simplex(inst["n"], [tuple(a) for a in inst["arcs"]], list(inst["supplies"]), **kw)
-    return {"status": res.status.name, "flows": [[k[0], k[1], f] for k, f in res.solution.items()] if isinstance(res.solution, dict) else res.solution,
-            "objective": res.objective, "iterations": res.iterations}
+    arcs, sup = ns_args(inst)
+    before = copy.deepcopy((arcs, sup))
+    out = _pack(network_simplex(inst["n"], arcs, sup, **kw))
+    side = None
+    if (arcs, sup) != before or repr((arcs, sup)) != repr(before):
+        side = "the caller's arcs / supplies were modified"
+    else:
+        out2 = _pack(network_simplex(inst["n"], arcs, sup, **kw))
+        if repr(out2) != repr(out):
+            side = f"a second call on the same objects returned {out2}"
+    out["side"] = side
+    return out
+
+
+ASSIGN_SHAPES = [None, None, {"rows": "tuple"}, {"rows": "tuple", "mat": "tuple"}, {"float": True}, {"float": True, "rows": "tuple"}]
 
 
 def run_assign_impl(inst):
     from solvor.flow import solve_assignment
 
-    res = solve_assignment([list(r) for r in inst["matrix"]])
-    return {"status": res.status.name, "assignment": list(res.solution), "objective": res.objective, "iterations": res.iterations}
+    sh = inst.get("shape") or {}
+    num = float if sh.get("float") else (lambda c: c)
+    row_t = tuple if sh.get("rows") == "tuple" else list
+    mat = [row_t(num(x) for x in r) for r in inst["matrix"]]
+    if sh.get("mat") == "tuple":
+        mat = tuple(mat)
+    before = copy.deepcopy(mat)
+
+    def pack(res):
+        return {"status": res.status.name, "assignment": list(res.solution), "objective": res.objective, "iterations": res.iterations}
+
+    out = pack(solve_assignment(mat))
+    side = None
+    if mat != before or repr(mat) != repr(before):
+        side = "the caller's cost matrix was modified"
+    else:
+        out2 = pack(solve_assignment(mat))
+        if repr(out2) != repr(out):
+            side = f"a second call on the same objects returned {out2}"
+    out["side"] = side
+    return out
 
 
 # ====================================================================================== independent oracle
@@ -413,9 +927,19 @@ def split_pooled(arcs, flows):
     return f, None
 
 
+CERT = "cert"  # `optimum` value: decide feasibility by max-flow and optimality by the absence of a negative residual cycle
+
+
 def judge(n, arcs, supplies, out, optimum, allow_max_iter=False):
-    """The property itself.  out = {"status", "flows" [[u, v, f]] (node numbers) | None, "objective"}.  None = fine."""
+    """The property itself.  out = {"status", "flows" [[u, v, f]] (node numbers) | None, "objective"}.  None = fine.
+    optimum: exact minimum cost (None = no feasible flow), or CERT for instances too large for the exact oracles."""
     st = out["status"]
+    if out.get("side"):
+        return out["side"]
+    if optimum == CERT:
+        _, sent, need, _ = _feasibility(n, arcs, supplies)
+        if sum(supplies) != 0 or sent != need:
+            optimum = None
     if st == "MAX_ITER" and allow_max_iter:
         if out["flows"] is None:
             return None
@@ -435,16 +959,23 @@ def judge(n, arcs, supplies, out, optimum, allow_max_iter=False):
         bal[u] += f[k]
         bal[v] -= f[k]
     if bal != list(supplies):
-        return f"flow {out['flows']} has node balances {bal}, required {list(supplies)}"
+        return f"flow {_short(out['flows'])} has node balances {_short(bal)}, required {_short(list(supplies))}"
     cost = sum(f[k] * arcs[k][3] for k in range(len(arcs)))
     obj = _int(out["objective"])
     if obj is None or obj != cost:
-        return f"flow {out['flows']} costs {cost} (cheapest split over parallel arcs) but objective={out['objective']!r}"
-    if st == "OPTIMAL" and cost != optimum:
-        return f"objective {cost} but the minimum is {optimum}"
-    if cost < optimum:
+        return f"flow {_short(out['flows'])} costs {cost} (cheapest split over parallel arcs) but objective={out['objective']!r}"
+    if st == "OPTIMAL":
+        if optimum != CERT and cost != optimum:
+            return f"objective {cost} but the minimum is {optimum}"
+        if potentials(n, arcs, f) is None:
+            return f"objective {cost} is not the minimum: the residual graph of the returned flow has a negative cycle"
+    elif optimum != CERT and cost < optimum:
         return f"objective {cost} below the minimum {optimum}"
     return None
+
+
+def _short(x, k=12):
+    return x if len(x) <= k else f"{x[:k]}... ({len(x)} entries)"
 
 
 def potentials(n, arcs, f):
@@ -482,18 +1013,25 @@ def assignment_optimum(mat):
     return min(sum(mat[p[j]][j] for j in range(m)) for p in itertools.permutations(range(n), m))
 
 
-def judge_assign(mat, out):
+def judge_assign(mat, out, inst=None):
     n = len(mat)
     m = len(mat[0]) if n else 0
     k = min(n, m)
     sol = out["assignment"]
     used = [j for j in sol if j != -1]
+    if out.get("side"):
+        return out["side"]
     if out["status"] != "OPTIMAL":
         return f"status {out['status']}"
     if len(sol) != n or len(used) != k or len(set(used)) != k or not all(isinstance(j, int) and 0 <= j < m for j in used):
         return f"{sol} is not a matching of {k} pairs"
     cost = sum(mat[i][j] for i, j in enumerate(sol) if j != -1)
-    want = assignment_optimum(mat)
+    if inst and "expect_opt" in inst:  # planted unique optimum (too large for enumeration)
+        want = inst["expect_opt"]
+        if cost == want and sol != inst["expect_assignment"]:
+            return f"assignment {sol} differs from the unique optimum {inst['expect_assignment']}"
+    else:
+        want = assignment_optimum(mat)
     if _int(out["objective"]) != cost:
         return f"assignment {sol} costs {cost} but objective={out['objective']!r}"
     if cost != want:
@@ -581,11 +1119,28 @@ def mcf_case(inst):
             bad = f"flow on an unknown node {e}"
             out = None
     supplies = [_d(i, s, t, d) for i in range(n)]
-    optimum, cross = optimum_of(n, arcs, supplies)
+    optimum, cross = oracle_for(inst, n, arcs, supplies)
     if out is not None and bad is None:
         bad = judge(n, arcs, supplies, out, optimum)
     return {"inst": inst, "n": n, "arcs": arcs, "s": s, "t": t, "d": d, "supplies": supplies, "out": out, "raw": res if res[0] != "ok" else None,
             "bad": bad, "optimum": optimum, "cross": cross}
+
+
+def oracle_for(inst, n, arcs, supplies):
+    """(optimum, cross-checked by brute force?)  inst["oracle"]: absent = exact (Klein + brute force where small);
+    "expect" = known by construction (inst["expect_opt"], None = infeasible), still cross-checked by the exact oracle when
+    inst["exact_ok"]; "cert" = max-flow feasibility + no negative residual cycle (any size / magnitude)."""
+    mode = inst.get("oracle")
+    if mode == "cert":
+        return CERT, False
+    if mode == "expect":
+        exp = inst["expect_opt"]
+        if inst.get("exact_ok"):
+            opt, cross = optimum_of(n, arcs, supplies)
+            assert opt == exp, ("construction and exact oracle disagree", inst, opt, exp)
+            return exp, cross
+        return exp, False
+    return optimum_of(n, arcs, supplies)
 
 
 def load_corpus():
@@ -606,7 +1161,7 @@ def ns_case(inst):
         bad = f"network_simplex did not return a result: {res}"
     else:
         out = dict(res[1])
-    optimum, cross = optimum_of(n, arcs, sup)
+    optimum, cross = oracle_for(inst, n, arcs, sup)
     if out is not None:
         if inst.get("max_iter") is None and _int(out["iterations"]) is not None and out["iterations"] >= DEFAULT_MAX_ITER:
             bad = f"cycled until the default iteration limit (status {out['status']})"
@@ -625,7 +1180,7 @@ def assign_case(inst):
         bad = f"solve_assignment did not return a result: {res}"
     else:
         out = res[1]
-        bad = judge_assign(inst["matrix"], out)
+        bad = judge_assign(inst["matrix"], out, inst)
     return {"inst": inst, "out": out, "bad": bad, "raw": res if res[0] != "ok" else None}
 
 
@@ -657,7 +1212,7 @@ NS_CHK = "fun c => let '(n, arcs, sup, mi, impl) := c in Mcf.opt_eqb NetSimplex.
 
 def certificate_case(n, arcs, supplies, out):
     """Coq case for the sound checker matching the implementation's verdict: ('opt', term) | ('cut', term) | None."""
-    if out is None:
+    if out is None or n * max(1, len(arcs)) > 20000 or len(arcs) > 300:  # keep the in-kernel evaluation cheap (pooled_b is quadratic)
         return None
     if out["status"] == "INFEASIBLE":
         S = cut_witness(n, arcs, supplies)
@@ -672,6 +1227,11 @@ def certificate_case(n, arcs, supplies, out):
     return None
 
 
+def ns_exact_zone(n, arcs):
+    """network_simplex keeps potentials as floats of magnitude big-M = sum|cost| * n + 1: integers stay exact below 2^53."""
+    return (sum(abs(a[3]) for a in arcs) * n + 1) * 4 < 2 ** 53
+
+
 def has_multi(arcs):
     pairs = [(a[0], a[1]) for a in arcs]
     return len(set(pairs)) < len(pairs) or any((v, u) in pairs for u, v in pairs if u != v)
@@ -682,26 +1242,76 @@ def run(ctx: Ctx):
                 "non-negative / potential differences + non-negative part (negative arcs, no negative cycle); shapes random, dense, "
                 "parallel, anti-parallel, layered, path, zero-capacity, saturated, sink-less, detour; demand 0..4 or max-flow(+1); supplies "
                 "induced by a flow / saturating / unit pairs / zero / unbalanced; max_iter 0..5 on 12 % of the network_simplex runs; "
-                "assignment matrices 0..4 x 0..4). non-trivial = min_cost_flow run with >= 2 augmentations or a multi-arc pair or a "
+                "assignment matrices 0..4 x 0..4); round-2 families: label objects (None / falsy / big ints / fresh tuples, strings, frozensets / "
+                "mixed), container and number-format variants, magnitudes up to 10^18 by construction, large chains / parallel arcs / planted "
+                "assignments, max_iter sweeps, call sequences on shared objects, event-directed search (29 events) + event corpus. non-trivial = min_cost_flow run with >= 2 augmentations or a multi-arc pair or a "
                 "negative arc or INFEASIBLE after >= 1 augmentation / network_simplex run with >= 2 iterations / assignment with "
                 "n, m >= 2; distinct = canonical JSON of the instance")
     ctx.proof_step(["C09"])
     if (COQ / "Props" / "C09_deep.v").exists(): ctx.proof_step(["C09"], props_file="Props/C09_deep.v")
     if (COQ / "Props" / "C09_deep2.v").exists(): ctx.proof_step(["C09"], props_file="Props/C09_deep2.v")
-    big = ctx.tier == "thorough"
-    n_mcf = ctx.budget(420, 6000)
-    n_ns = ctx.budget(420, 6000)
-    n_as = ctx.budget(150, 1500)
+    import time as _time
+    t_mark = [_time.time()]
+    timing = ctx.extra.setdefault("timing_s", {})
 
-    for fnd in ctx.open_findings():  # none at the time of writing: all C09 findings are fixed, their witnesses are in corpus/C09
-        ctx.notes.append(f"open known finding {fnd.get('id')} has no executable class predicate in this module: not excused")
+    def lap(name):
+        timing[name] = round(_time.time() - t_mark[0], 1)
+        t_mark[0] = _time.time()
+
+    lap("proof_steps")
+    big = ctx.tier == "thorough"
+    n_mcf = ctx.budget(360, 6000)
+    n_ns = ctx.budget(360, 6000)
+    n_as = ctx.budget(120, 1500)
+
     corpus = load_corpus()
+    # known findings with an executable class: "C09-ns-float-potentials" = network_simplex on integer costs outside ns_exact_zone (the
+    # generators stay inside that zone).  Its witnesses (corpus kind "ns_known") are replayed while an OPEN entry of that id exists.
+    open_ids = {f.get("id") for f in ctx.open_findings()}
+    for o in corpus:
+        if o.get("kind") == "ns_known" and o.get("finding") in open_ids:
+            c = ns_case({k: o[k] for k in INST_KEYS if k in o} | {"oracle": "expect", "expect_opt": o["expect_opt"]})
+            ctx.evaluations += 1
+            if c["bad"] and not ns_exact_zone(c["n"], c["arcs"]):
+                ctx.known_hit(o["finding"], f"network_simplex({o['n']}, {o['arcs']}, {o['supplies']}): {c['bad']}")
+            elif c["bad"]:
+                ctx.violation(f"network_simplex: {c['bad']}", {"kind": "ns", **o})
+            else:
+                ctx.notes.append(f"witness of open finding {o['finding']} no longer reproduces")
+    for fnd in ctx.open_findings():
+        if fnd.get("id") != "C09-ns-float-potentials":
+            ctx.notes.append(f"open known finding {fnd.get('id')} has no executable class predicate in this module: not excused")
     mcf_insts = [o for o in corpus if o.get("kind") == "mcf"] + fixed_mcf() + [gen_mcf(ctx.rng, big) for _ in range(n_mcf)]
     ns_insts = [o for o in corpus if o.get("kind") == "ns"] + fixed_ns() + [gen_ns(ctx.rng, big) for _ in range(n_ns)]
     as_insts = [o for o in corpus if o.get("kind") == "assign"] + fixed_assign() + [gen_assign(ctx.rng, big) for _ in range(n_as)]
+    # round-2 families (HARDENING.md): M magnitudes, S sizes, O option sweeps; L labels / I containers / A aliasing ride on every case
+    n_mag = 60 if not big else 700  # round-2 families have fixed sizes per tier (not tripled on drift: the base families are)
+    mcf_insts += [gen_mcf_magnitude(ctx.rng) for _ in range(n_mag)]
+    ns_insts += [gen_ns_magnitude(ctx.rng) for _ in range(n_mag)]
+    as_insts += [gen_assign_magnitude(ctx.rng) for _ in range(n_mag // 2)]
+    rng = ctx.rng
+    mcf_insts += [large_mcf(rng, 17, "chain", o) for o in ("reverse", "zigzag", "shuffle", "forward")]
+    mcf_insts += [large_mcf(rng, 65, "chain", "reverse"), large_mcf(rng, 65, "chain", "zigzag"), large_mcf(rng, 65, "chain2", "zigzag"),
+                  large_mcf(rng, 66, "chain2", "reverse"), large_mcf(rng, 257, "chain", "zigzag"), large_mcf(rng, 513, "chain", "reverse"),
+                  large_mcf(rng, 257, "parallel"), large_mcf(rng, 2049, "parallel"), large_mcf(rng, 1025, "chain", "forward")]
+    ns_insts += [large_ns(rng, 17, "chain"), large_ns(rng, 65, "chain"), large_ns(rng, 257, "chain"), large_ns(rng, 1025, "chain")]
+    ns_insts += [large_ns(rng, k, "random") for k in (9, 12, 12, 20, 40, 100)]
+    as_insts += [large_assign(rng, 6, 6), large_assign(rng, 17, 17), large_assign(rng, 20, 20)]
+    if big:
+        mcf_insts += [large_mcf(rng, 1025, "chain", "reverse"), large_mcf(rng, 1025, "chain", "zigzag"), large_mcf(rng, 801, "chain2", "shuffle"),
+                      large_mcf(rng, 65537, "parallel")]
+        ns_insts += [large_ns(rng, 2049, "chain")] + [large_ns(rng, k, "random") for k in (20, 30, 60, 150, 257)]
+        as_insts += [large_assign(rng, 33, 33)]
+    ns_insts += ns_sweep(rng, 100 if not big else 900)
+    mcf_insts += [assemble_mcf(rng, gen_mcf_zigzag(rng), labels="legacy" if rng.random() < 0.6 else rng.choice(LABEL_FAMILIES), shuffle=False)
+                  for _ in range(50 if not big else 600)]
+    ev_m, ev_n = event_cases(rng, 6000 if not big else 120000, 3 if not big else 12)
+    mcf_insts += ev_m
+    ns_insts += ev_n
 
     opt_cases, cut_cases = [], []  # (term, description)
     disagreements = []
+    lap("generate")
 
     # ------------------------------------------------------------------ min_cost_flow
     mcf_terms, mcf_meta = [], []
@@ -723,22 +1333,36 @@ def run(ctx: Ctx):
         ctx.count("mcf_shape", "corpus" if inst.get("tag", "").startswith("corpus") else inst.get("tag", "fixed").split("/")[0])
         ctx.count("mcf_oracle", "infeasible" if c["optimum"] is None else "feasible")
         ctx.count("oracle_cross_checked_by_brute_force", c["cross"])
+        ctx.count("mcf_labels", (inst.get("tag", "").split("/L:") + ["legacy"])[1] if "labels" in inst else "raw ints/strings")
+        ctx.count("mcf_containers", json.dumps(inst.get("shape") or {}, sort_keys=True))
+        ctx.count("oracle_kind", inst.get("oracle", "exact"))
+        if c["n"] <= 70 and len(c["arcs"]) <= 300:
+            ref = EV.mcf_ref(c["n"], c["arcs"], c["s"], c["t"], c["d"])
+            for e in ref["events"]:
+                ctx.count("event", e)
+            if out and st in ("OPTIMAL", "INFEASIBLE"):
+                ctx.count("reference_port_agrees", (ref["status"], ref.get("iterations")) == (st, out["iterations"])
+                          and (st != "OPTIMAL" or ref["objective"] == _int(out["objective"])))
         if c["bad"]:
             ctx.violation(f"min_cost_flow: {c['bad']}", {"kind": "mcf", **inst, "impl": out or str(c["raw"]), "optimum": c["optimum"]})
         if out and (out["iterations"] >= 2 or has_multi(c["arcs"]) or any(a[3] < 0 for a in c["arcs"])) and (st == "OPTIMAL" or out["iterations"] >= 2):
             ctx.nontriv(("mcf", json.dumps(inst, sort_keys=True)))
         ctx.sample({"kind": "mcf", **inst, "impl": out}, 2)
-        mcf_terms.append(tup(cnat(c["n"]), clist(c["arcs"], c_arc), cnat(c["s"]), cnat(c["t"]), cz(c["d"]), c_mcf_result(out)))
-        mcf_meta.append(c)
+        if not inst.get("no_model"):
+            mcf_terms.append(tup(cnat(c["n"]), clist(c["arcs"], c_arc), cnat(c["s"]), cnat(c["t"]), cz(c["d"]), c_mcf_result(out)))
+            mcf_meta.append(c)
         cc = certificate_case(c["n"], c["arcs"], c["supplies"], out)
         if cc:
             (opt_cases if cc[0] == "opt" else cut_cases).append((cc[1], ("mcf", inst, out)))
         # the same instance as a supply vector for network_simplex: both must report the same optimal cost
-        if c["d"] >= 0 and out is not None and hangs["ns"] < MAX_HANGS:
+        if c["d"] >= 0 and out is not None and hangs["ns"] < MAX_HANGS and ns_exact_zone(c["n"], c["arcs"]):
             ns_inst = {"n": c["n"], "arcs": [list(a) for a in c["arcs"]], "supplies": c["supplies"], "max_iter": None, "tag": "from-mcf"}
+            ns_inst.update({k: inst[k] for k in ("oracle", "expect_opt", "exact_ok") if k in inst})
+            if inst.get("no_model") and (c["n"] > 40 or len(c["arcs"]) > 300):
+                ns_inst["no_model"] = True
             r2 = guarded(run_ns_impl, ns_inst, timeout=5)
             ctx.evaluations += 1
-            if len(ns_insts) < n_ns * 2 + 40 and c["arcs"]:
+            if c["arcs"]:
                 ns_insts.append(ns_inst)  # also through the network_simplex model / oracle / certificates
             if r2[0] != "ok":
                 hangs["ns"] += r2[0] == "hang"
@@ -750,7 +1374,9 @@ def run(ctx: Ctx):
                 if not same:
                     ctx.violation(f"min_cost_flow says {st} cost {out['objective']}, network_simplex says {o2['status']} cost {o2['objective']} "
                                   f"(exact optimum {c['optimum']})", {"kind": "mcf", **inst, "impl": out, "ns_impl": o2, "optimum": c["optimum"]})
-    failing = ctx.coq_check("mcf", IMPORTS, MCF_T, MCF_CHK, mcf_terms)
+    lap("mcf_runs")
+    failing = ctx.coq_check("mcf", IMPORTS, MCF_T, MCF_CHK, mcf_terms, shard=120)
+    lap("mcf_coq")
     for i in failing:
         disagreements.append(("mcf", mcf_meta[i]))
 
@@ -779,13 +1405,24 @@ def run(ctx: Ctx):
             ctx.nontriv(("ns", json.dumps(inst, sort_keys=True)))
         ctx.sample({"kind": "ns", **inst, "impl": out}, 4)
         mi = DEFAULT_MAX_ITER if inst.get("max_iter") is None else inst["max_iter"]
-        ns_terms.append(tup(cnat(c["n"]), clist(c["arcs"], c_arc), clist(c["supplies"], cz), cz(mi), c_ns_result(out)))
-        ns_meta.append(c)
+        ctx.count("ns_containers", json.dumps(inst.get("shape") or {}, sort_keys=True))
+        if c["n"] <= 70 and len(c["arcs"]) <= 300:
+            ref = EV.ns_ref(c["n"], c["arcs"], c["supplies"], mi)
+            for e in ref["events"]:
+                ctx.count("event", e)
+            if out:
+                ctx.count("reference_port_agrees", (ref["status"], ref.get("iterations")) == (out["status"], out["iterations"]))
+        ctx.count("oracle_kind", inst.get("oracle", "exact"))
+        if not inst.get("no_model"):
+            ns_terms.append(tup(cnat(c["n"]), clist(c["arcs"], c_arc), clist(c["supplies"], cz), cz(mi), c_ns_result(out)))
+            ns_meta.append(c)
         cc = certificate_case(c["n"], c["arcs"], c["supplies"], out)
         if cc:
             (opt_cases if cc[0] == "opt" else cut_cases).append((cc[1], ("ns", inst, out)))
+    lap("ns_runs")
     if NS_MODEL:
-        failing = ctx.coq_check("ns", IMPORTS, NS_T, NS_CHK, ns_terms)
+        failing = ctx.coq_check("ns", IMPORTS, NS_T, NS_CHK, ns_terms, shard=120)
+        lap("ns_coq")
         for i in failing:
             disagreements.append(("ns", ns_meta[i]))
     else:
@@ -808,20 +1445,24 @@ def run(ctx: Ctx):
         if len(mat) >= 2 and len(mat[0]) >= 2:
             ctx.nontriv(("assign", json.dumps(mat)))
         ctx.sample({"kind": "assign", **inst, "impl": out}, 5)
-        as_terms.append(tup(clist(mat, lambda r: clist(r, cz)), c_assign_result(out)))
-        as_meta.append(c)
+        ctx.count("assign_containers", json.dumps(inst.get("shape") or {}, sort_keys=True))
+        if not inst.get("no_model"):
+            as_terms.append(tup(clist(mat, lambda r: clist(r, cz)), c_assign_result(out)))
+            as_meta.append(c)
         if out and out["status"] == "OPTIMAL" and _int(out["objective"]) is not None and all(isinstance(j, int) for j in out["assignment"]):
             pi = assign_potentials(mat, out["assignment"]) if c["bad"] is None else [0] * (2 + len(mat) + (len(mat[0]) if mat else 0))
             asc_terms.append(tup(clist(mat, lambda r: clist(r, cz)), clist(out["assignment"], cz), cz(_int(out["objective"])), clist(pi, cz)))
             asc_meta.append(c)
+    lap("assign_runs")
     failing = ctx.coq_check("assign", IMPORTS, ASG_T, ASG_CHK, as_terms)
+    lap("assign_coq")
     for i in failing:
         disagreements.append(("assign", as_meta[i]))
 
     # ------------------------------------------------------------------ sound checkers on implementation outputs
     cert_fail = []
     for tag, typ, chk, cases in (("cert_opt", OPT_T, OPT_CHK, opt_cases), ("cert_cut", CUT_T, CUT_CHK, cut_cases)):
-        failing = ctx.coq_check(tag, IMPORTS, typ, chk, [t for t, _ in cases])
+        failing = ctx.coq_check(tag, IMPORTS, typ, chk, [t for t, _ in cases], shard=120)
         ctx.count("kernel_checked_certificates", tag, len(cases) - len(failing))
         for i in failing:
             cert_fail.append((tag, cases[i][1]))
@@ -829,11 +1470,18 @@ def run(ctx: Ctx):
     ctx.count("kernel_checked_certificates", "cert_assign", len(asc_terms) - len(failing))
     for i in failing:
         cert_fail.append(("cert_assign", ("assign", asc_meta[i]["inst"], asc_meta[i]["out"])))
+    lap("cert_coq")
+    alias_sequences(ctx, mcf_insts, ns_insts, 40 if not big else 400)
+    lap("call_sequences")
     ctx.notes.append("optimality / infeasibility of every implementation answer is re-checked inside coqc by McfSpec.optimal_check / "
                      "cut_check / AssignSpec.assignment_check (sound by McfCert theorems); the per-arc split of pooled flows, the "
                      "potentials and the cuts are untrusted witnesses computed by the harness")
     ctx.notes.append("outside the quantifier, not generated: negative-cost cycles of positive capacity (min_cost_flow does not return), "
                      "non-integer supplies (truncated by int()), source == sink (returns {} cost 0)")
+    ctx.notes.append("network_simplex magnitudes are generated only inside ns_exact_zone ((sum|cost| * n + 1) * 4 < 2^53): beyond it the float "
+                     "potentials round and the solver returns non-minimal costs on the unchanged code (candidate finding C09-ns-float-potentials, "
+                     "witness corpus/C09/k_ns-float-potentials.json); min_cost_flow / solve_assignment are exercised up to 10^18")
+    ctx.notes.append("the instrumented reference ports (mincost_events) only steer generation and fill the `event` histogram; they are never an oracle")
     ctx.notes.append("costs and capacities are Python ints; network_simplex keeps potentials as floats holding integers < 2^53 "
                      "(its -1e-9 pricing tolerance then means `< 0`), modelled over Z")
 
@@ -919,10 +1567,14 @@ def fixed_assign():
 
 
 # ====================================================================================== replay
+INST_KEYS = ("graph", "source", "sink", "demand", "labels", "shape", "oracle", "expect_opt", "exact_ok", "n", "arcs", "supplies", "max_iter",
+             "matrix", "expect_assignment", "tag")
+
+
 def replay(obj):
     kind = obj.get("kind")
     if kind == "mcf":
-        c = mcf_case({k: obj[k] for k in ("graph", "source", "sink", "demand")})
+        c = mcf_case({k: obj[k] for k in INST_KEYS if k in obj})
         print("implementation:", c["out"] or c["raw"])
         print("exact optimum:", c["optimum"])
         if c["bad"] is None and c["out"] is not None and c["d"] >= 0:
@@ -931,11 +1583,11 @@ def replay(obj):
             if r2[0] != "ok" or r2[1]["status"] != c["out"]["status"] or (c["out"]["status"] == "OPTIMAL" and _int(r2[1]["objective"]) != _int(c["out"]["objective"])):
                 c["bad"] = "min_cost_flow and network_simplex disagree"
     elif kind == "ns":
-        c = ns_case({k: obj.get(k) for k in ("n", "arcs", "supplies", "max_iter")})
+        c = ns_case({"max_iter": None, **{k: obj[k] for k in INST_KEYS if k in obj}})
         print("implementation:", c["out"] or c["raw"])
         print("exact optimum:", c["optimum"])
     elif kind == "assign":
-        c = assign_case({"matrix": obj["matrix"]})
+        c = assign_case({k: obj[k] for k in INST_KEYS if k in obj})
         print("implementation:", c["out"])
     else:
         print("replay names an unchecked obligation:", obj.get("unchecked") or obj.get("what"))
